@@ -24,6 +24,9 @@ class Report:
 
     # -- rule registration
     def rule(self, rid, text):
+        if rid in self.rules and self.rules[rid] != text:
+            from facts import AnalysisBroken
+            raise AnalysisBroken('rule id %s is registered twice with different texts (a clash of ids in the property module)' % rid)
         self.rules[rid] = text
 
     def ok(self, rule, key, where=None, detail=None):
@@ -230,3 +233,34 @@ def finish(rep, facts_stats, level_text, assumptions, trusted):
         except OSError:
             pass
     return rc
+
+
+def cited_rules(text):
+    """Rule ids cited in a reason text: `C08.G1/G2` -> {C08.G1, C08.G2}."""
+    import re
+    out = set()
+    for m in re.finditer(r'(C\d\d)\.([A-Z]\d\w*(?:/[A-Z]\d\w*)*)', text or ''):
+        for part in m.group(2).split('/'):
+            out.add('%s.%s' % (m.group(1), part))
+    return out
+
+
+def require_rules(F, rep, rule_ids):
+    """An exemption that is justified by gates of ANOTHER property ("reached only behind the isDefined() gates, rules C08.G1/G2") is only as good as
+    those gates: they are checked in this report too (borrowed), so that removing a gate is reported by the property whose invariant relied on it."""
+    if getattr(rep, 'nested', False):
+        return
+    import importlib
+    by = {}
+    for r in sorted(rule_ids):
+        pid = r.split('.')[0]
+        if pid == rep.pid or ('%s.%s' % (rep.pid, r)) in rep.rules:
+            continue
+        by.setdefault(pid, set()).add(r)
+    for pid, rs in sorted(by.items()):
+        mod = importlib.import_module(pid.lower())
+        mod.run(F, Borrowed(rep, only=rs))
+        for r in rs:
+            if ('%s.%s' % (rep.pid, r)) not in rep.rules:
+                from facts import AnalysisBroken
+                raise AnalysisBroken('an invariant of %s cites rule %s, which module %s no longer defines' % (rep.pid, r, pid.lower()))
